@@ -194,6 +194,11 @@ def execute(plan):
     if not init["latcaled"] and not uncal:
         # an un-calibrated interferogram is brought to a defined spacing first
         ifg.latcal(dx0)
+    # a second, independent interferogram of the same shape and spacing whose coordinates are
+    # read now and which receives no step at all: nothing done to `ifg` may reach it
+    sib = Interferogram(z.copy(), dx=float(ifg.dx), wavelength=0.6328)
+    sib_snap = {w: np.array(getattr(sib, w)) for w in "xyrt"}
+    sib_data = sib.data.copy()
     mdl = _Model()
     mdl.shape = tuple(z.shape)
     mdl.dx = 0.0 if uncal else float(dx0)
@@ -466,6 +471,13 @@ def execute(plan):
         par = f"{mdl.shape[0] % 2}{mdl.shape[1] % 2}"
         trans.add(f"{bits}|{int(bool(getattr(ifg, '_latcaled', 0)))}|{int(not mdl.valid.all())}|{par}|{k}|{out[:10]}")
 
+    bits_s = _cache_bits(sib)
+    if not _nan_eq(np, sib.data, sib_data):
+        viol("instance-isolated", -1, "sibling", bits_s, what="data")
+    for w, a0 in sib_snap.items():
+        a1 = np.asarray(getattr(sib, w))
+        if a1.shape != a0.shape or not np.array_equal(a1, a0):
+            viol("instance-isolated", -1, "sibling", bits_s, what=w)
     # originals left behind by copy(): untouched by anything done to the copy since
     for (ci, orig, m0, data0, snap) in shadows:
         bits0 = _cache_bits(orig)
